@@ -3,7 +3,12 @@
      F                 -> what the model assumes lock.c asks the kernel for
      R k tok tok ...   -> run a schedule over processes 0..k-1 from the empty file system;
                           tok = sN (step) | cN (SIGKILL) | tN (SIGTERM); prints the final observation
-                          or "blocked i" when token i is not enabled *)
+                          or "blocked i" when token i is not enabled
+     N hexsock hexpid hexseed -> the byte-string program of a daemon configured with these names (StartPathModel.cprog):
+                          every step with the name it uses; the bind step as bind:<refuse>:<name>
+     S                 -> sizes: sun_path, strlcpy size, bound of the length test, longest lock name
+     C k conf.. ; tok.. ; name..  -> byte-string model: k processes, conf = hexsock,hexpid,hexseed each; schedule as
+                          for R; then for every queried name (hex): <name>=<-|reg|sock>:<listener>:<lock holder> *)
 open Model
 open Conv
 
@@ -26,8 +31,49 @@ let rec run_toks s i = function
   | [] -> Ok s
   | t :: r -> (match run s [label_of t] with Some s' -> run_toks s' (i + 1) r | None -> Error i)
 
+let cprim_s = function
+  | COpenLock nm -> "open_lock:" ^ hex nm | CFstatLock -> "fstat_lock" | CSetLk -> "setlk"
+  | CUnlink nm -> "unlink:" ^ hex nm | CBind (r, nm) -> Printf.sprintf "bind:%d:%s" (if r then 1 else 0) (hex nm)
+  | CListen -> "listen" | CWritePid nm -> "write_pid:" ^ hex nm | CServe -> "serve" | CCloseSock -> "close_sock"
+  | CCloseLock -> "close_lock" | CWriteSeed nm -> "write_seed:" ^ hex nm | CExit -> "exit"
+
+let conf_of s = match split_on ',' s with
+  | [a; b; c] -> { c_sock = unhex a; c_pid = unhex b; c_seed = unhex c }
+  | _ -> failwith "conf"
+
+let rec split_semi acc cur = function
+  | [] -> List.rev (List.rev cur :: acc)
+  | ";" :: r -> split_semi (List.rev cur :: acc) [] r
+  | x :: r -> split_semi acc (x :: cur) r
+
+let rec crun_toks s i = function
+  | [] -> Ok s
+  | t :: r -> (match crun s [label_of t] with Some s' -> crun_toks s' (i + 1) r | None -> Error i)
+
 let line l =
   match split_on ' ' l with
+  | ["N"; a; b; c] ->
+      Printf.printf "N %s\n" (String.concat " " (List.map cprim_s (cprog { c_sock = unhex a; c_pid = unhex b; c_seed = unhex c })))
+  | ["S"] -> Printf.printf "S sun_path=%d copy_size=%d len_bound=%d lock_name_max=%d\n"
+               (int_of_n sun_path_cap) (int_of_n sock_copy_size) (int_of_n sock_len_bound) (int_of_n lock_name_max)
+  | "C" :: k :: rest ->
+      let k = int_of_string k in
+      (match split_semi [] [] rest with
+       | [confs; toks; qs] when List.length confs = k ->
+           let ca = Array.of_list (List.map conf_of confs) in
+           let cf p = let i = int_of_nat p in if i < k then ca.(i) else ca.(0) in
+           (match crun_toks (cinit cf) 0 toks with
+            | Error i -> Printf.printf "C blocked %d\n" i
+            | Ok s ->
+                let procs = List.init k (fun p ->
+                  let ((st, pc), srv) = cobs_proc s (nat_of_int p) in
+                  Printf.sprintf "%s/%d/%d" (status_s (int_of_nat st)) (int_of_nat pc) (b srv)) in
+                let q h = let nm = unhex h in
+                  Printf.sprintf "%s=%s:%s:%s" h
+                    (match cnames s nm with None -> "-" | Some _ -> if is_sock s nm then "sock" else "reg")
+                    (opt (name_listener s nm)) (opt (name_lock_holder s nm)) in
+                Printf.printf "C %s | %s\n" (String.concat " " procs) (String.concat " " (List.map q qs)))
+       | _ -> Printf.printf "? %s\n" l)
   | ["P"] -> Printf.printf "P %s\n" (String.concat " " (List.map prim_s prog))
   | ["F"] -> Printf.printf "F open_lock:creat=%d,excl=%d,trunc=%d,mode=%04o setlk:nonblock=%d,excl=%d,whole=%d,busy_exits=%d\n"
                (b lock_open_creat) (b lock_open_excl) (b lock_open_trunc) (int_of_n lock_create_mode)
